@@ -108,6 +108,22 @@ func setPayload(c *mon.Ctx, m *ref.TSPacket, n int, r *gen.Rand) {
 	*p = packet.Packet(raw)
 	orig := *p
 	data := r.Bytes(n)
+	alias := false
+	if m.Hdr[3]&0x10 != 0 && r.Chance(6) {
+		// the argument is a view into this very packet - part of what the function-form Payload returned (a payload
+		// cut short in place), or any other stretch of its bytes: the bytes to store are the ones it holds at the call
+		alias = true
+		a := r.Intn(188)
+		if v, err := packet.Payload(p); err == nil && len(v) > 0 && r.Bool() {
+			a = 188 - len(v) + r.Intn(len(v))
+			if r.Bool() {
+				a = 188 - len(v)
+			}
+		}
+		data = p[a : a+r.Intn(188-a+1)]
+		n = len(data)
+		c.Count("setpayload.argument_is_a_view_into_the_packet")
+	}
 	dsnap := append([]byte{}, data...)
 	cnt, err := p.SetPayload(data)
 	c.Eval(1)
@@ -118,9 +134,10 @@ func setPayload(c *mon.Ctx, m *ref.TSPacket, n int, r *gen.Rand) {
 		}
 		return x
 	}
-	if !bytes.Equal(data, dsnap) {
+	if !alias && !bytes.Equal(data, dsnap) {
 		c.Fail("setpayload:mutates-data", "SetPayload modified the caller's data slice", w("", nil))
 	}
+	data = dsnap // (for an argument inside the packet: what it held when the call was made)
 	afc := m.Hdr[3] >> 4 & 3
 	if afc == 2 {
 		c.Count("setpayload.refused_af_only")
@@ -348,6 +365,7 @@ func lengths(capa int) []int {
 func run(c *mon.Ctx) {
 	c.Rule("well-formed packets from a reference builder: payload only, adaptation field only (length 183), both (every adaptation_field_length 0..182) with random combinations of optional fields that fit (including exactly full fields); SetPayload lengths 0..200 with capacity-2..capacity+2 forced; creation helpers with all PIDs/counters sampled. distinct non-trivial = distinct (operation, AFC, adaptation_field_length class, optional-field flag set, relation of n to capacity)")
 	c.Assume("well-formed means ISO/IEC 13818-1: AFC=10 => adaptation_field_length 183, AFC=11 => 0..182, content within the length, 0xFF stuffing; SetAdaptationFieldControl is held only to the weak facts of DESIGN section 5.C02")
+	c.Floor("setpayload.argument_is_a_view_into_the_packet", 500)
 	c.Floor("setpayload.refused_af_only", 200)
 	c.Floor("setpayload.n_equal_capacity", 500)
 	c.Floor("setpayload.n_above_capacity", 500)
